@@ -21,6 +21,7 @@ SimStep ==
   \/ AppendRow("msg")
   \/ AppendRow("msg")
   \/ AppendRow("bar")
+  \/ AppendRow("bar")
   \/ \E f \in Pick(Followers), off \in Pick(0..(leo + 1)) : Ack(f, off)
   \* aimed: an ISR follower catches up completely / partly
   \/ \E f \in PickOr(ISRF) : f # -1 /\ leo > 0 /\ Ack(f, leo)
@@ -52,6 +53,11 @@ SimStep ==
   \/ \E start \in Pick({ret, ret + 1, ret + 2, ret + 3}), lim \in Pick(Limits) : Sync("down", start, 0, lim)
   \/ \E start \in Pick({ret, ret + 1, ret + 2}), lim \in Pick(Limits) : Sync("up", start, 0, lim)
   \/ \E lim \in Pick(Limits) : Sync("down", 0, 0, lim)
+  \/ HeadMsg
+  \/ \E after \in Pick(0..(leo + 1)) : LastVis(after)
+  \* aimed: pages that contain or touch a barrier row
+  \/ \E b \in PickOr(bar), d \in Pick({0, 1}), lim \in Pick(Limits) : b # -1 /\ Sync("down", b + d, 0, lim)
+  \/ \E b \in PickOr(bar), d \in Pick({0, 1}), lim \in Pick(Limits) : b # -1 /\ b - d >= 0 /\ Sync("up", b - d, 0, lim)
 \* The last level is a single stuttering successor, so that the behaviour is printed once.
 SimNext == IF Len(hist) = Depth + 1
              THEN UNCHANGED vars /\ hist' = Append(hist, hist[1])
